@@ -6,7 +6,11 @@
 //	x.Unlock()        =>  x.Unlock(); verifhook.Release(site)
 //	defer x.Unlock()  =>  defer verifhook.Release(site); defer x.Unlock()
 //
-// (same for RLock/RUnlock). It never touches /repo; the harness is compiled
+// (same for RLock/RUnlock). In the Execute methods of the flow processors
+// (streams/processors/**) every statement additionally gets a scheduling point
+// in front of it (verifhook.Yield("stmt", site)): per-transaction work on shared
+// processor objects happens there, often without any lock in between.
+// It never touches /repo; the harness is compiled
 // against the rewritten copy. usage: instrument <root> <relative-prefix>
 package main
 
@@ -133,6 +137,54 @@ func rewrite(path, rel string) (int, error) {
 		}
 		return true
 	})
+	if strings.Contains(path, "/streams/processors/") {
+		var stmts func(b *ast.BlockStmt)
+		body := func(list []ast.Stmt) []ast.Stmt {
+			out := make([]ast.Stmt, 0, 2*len(list))
+			for _, st := range list {
+				if _, isDecl := st.(*ast.DeclStmt); !isDecl {
+					if _, isLabel := st.(*ast.LabeledStmt); !isLabel {
+						count++
+						site := fmt.Sprintf("%s:%d", rel, fset.Position(st.Pos()).Line)
+						out = append(out, &ast.ExprStmt{X: hookCall("Yield", "stmt", site)})
+					}
+				}
+				out = append(out, st)
+				switch x := st.(type) {
+				case *ast.IfStmt:
+					for cur := x; cur != nil; {
+						stmts(cur.Body)
+						switch e := cur.Else.(type) {
+						case *ast.IfStmt:
+							cur = e
+						case *ast.BlockStmt:
+							stmts(e)
+							cur = nil
+						default:
+							cur = nil
+						}
+					}
+				case *ast.ForStmt:
+					stmts(x.Body)
+				case *ast.RangeStmt:
+					stmts(x.Body)
+				case *ast.BlockStmt:
+					stmts(x)
+				}
+			}
+			return out
+		}
+		stmts = func(b *ast.BlockStmt) {
+			if b != nil {
+				b.List = body(b.List)
+			}
+		}
+		for _, d := range f.Decls {
+			if fd, ok := d.(*ast.FuncDecl); ok && fd.Recv != nil && fd.Name.Name == "Execute" && fd.Body != nil {
+				stmts(fd.Body)
+			}
+		}
+	}
 	if count == 0 {
 		return 0, nil
 	}
